@@ -71,7 +71,8 @@ CLAIMED["C09"] = dict(
          "compared only: an emdpath whose target merely HAS a child named like the saved node (the code then appends in place), "
          "tree=None with the parent emdpath of a new node (children merged into the parent). "
          "compatKids is the explicit 'common name space' domain: no runtime child named like an object of the body it lands in, "
-         "scratch name _tmp_<name> free, old children not named like objects of the replacing body. Bodies opaque.",
+         "old children not named like objects of the replacing body (the former hypothesis 'scratch name _tmp_<name> free' is gone: "
+         "running the real code at that excluded point showed a refusal, repaired in /repo by fix d955578). Bodies opaque.",
     technique="Lean 4 refinement proof to a path-wise union spec (whole-root and targeted appends, zipper lemma) + differential correspondence over (file tree, runtime tree) pairs",
     design="7 C09")
 
